@@ -11,7 +11,7 @@ targets against a plain loop.
 """
 import itertools
 
-from glom import glom, Path, T, S, Spec, Val, PathAccessError, assign, delete, Assign, Delete
+from glom import glom, Path, T, S, Spec, Val, PathAccessError, assign, delete, Assign, Delete, GlomError
 
 from .. import objs
 from ..engine import R, Sub
@@ -641,12 +641,18 @@ def run_tail(case):
         'index-0': (rows_seq, lambda: T.__star__()[0], lambda e: e[0]),
         'index-False': (rows_seq, lambda: T.__star__()[False], lambda e: e[False]),
         'index-0.0': (rows_seq, lambda: T.__star__()[0.0], lambda e: e[0.0]),
+        # leaves are entries like any other: steps that succeed on strings / numbers succeed after ** too
+        'index-0-after-starstar-strings': ({'a': 'xy', 'b': ['pq', 3, b'zw']}, lambda: T.__starstar__()[0], lambda e: e[0]),
+        'attr-real-after-starstar': ({'a': 1, 'b': [2.5, 'x', True]}, lambda: T.__starstar__().real, lambda e: e.real),
+        'text-real-after-starstar': ({'a': 1, 'b': [2.5, 'x', None]}, lambda: Path.from_text('**.real'), lambda e: e.real),
+        'attr-after-star-scalars': ([1, 2.5, 'x', None], lambda: T.__star__().real, lambda e: e.real),
     }
     return MENU[name] if isinstance(name, str) else None
 
 
 TAIL_NAMES = ['neg-after-star', 'invert-after-star', 'neg-after-starstar', 'mul-after-star', 'mul-float-after-star', 'floordiv-after-star',
-              'floordiv-float-after-star', 'index-1', 'index-1.0', 'index-True', 'index-0', 'index-False', 'index-0.0']
+              'floordiv-float-after-star', 'index-1', 'index-1.0', 'index-True', 'index-0', 'index-False', 'index-0.0',
+              'index-0-after-starstar-strings', 'attr-real-after-starstar', 'text-real-after-starstar', 'attr-after-star-scalars']
 
 
 def eval_tail(name):
@@ -685,6 +691,54 @@ def run_tail_history(case):
     return R(None, 'n=%d' % len(case), nontrivial=True, steps=len(case), tags=set(case))
 
 
+class _Bare:
+    """an iterable object WITHOUT instance attributes: it has no attribute children (and it is not a registered container)"""
+    def __iter__(self):
+        return iter([1, 2])
+
+
+class _WithAttrs(_Bare):
+    def __init__(self):
+        self.u, self.v = 'attr-u', 'attr-v'
+
+
+class _LedgerError(GlomError):
+    pass
+
+
+def _raise_ledger(*a):
+    raise _LedgerError('a GlomError of the callee, not a missing entry')
+
+
+def after_wildcard_menu():
+    return [
+        ('bare-iterable-object-has-no-children', lambda: glom(_Bare(), '*'), []),
+        ('bare-iterable-object-under-starstar', lambda: len(glom({'k': _Bare()}, '**')), 2),
+        ('object-with-attributes-then-bare', lambda: (glom(_WithAttrs(), '*'), glom(_Bare(), '*')), (['attr-u', 'attr-v'], [])),
+        ('bare-then-object-with-attributes', lambda: (glom(_Bare(), '*'), glom(_WithAttrs(), '*')), ([], ['attr-u', 'attr-v'])),
+        ('callee-GlomError-after-star-propagates', lambda: _outcome(lambda: glom([{'f': _raise_ledger}], T.__star__()['f']())), '_LedgerError'),
+        ('callee-GlomError-after-starstar-propagates', lambda: _outcome(lambda: glom({'x': {'f': _raise_ledger}}, T.__starstar__()['f']())), '_LedgerError'),
+        ('callee-ValueError-after-star-propagates', lambda: _outcome(lambda: glom(['a'], T.__star__().index('zz'))), 'ValueError'),
+    ]
+
+
+def _outcome(f):
+    try:
+        return ('returned', f())
+    except Exception as e:
+        return [c.__name__ for c in type(e).__mro__ if c.__name__ in ('_LedgerError', 'ValueError')][0] if any(
+            c.__name__ in ('_LedgerError', 'ValueError') for c in type(e).__mro__) else 'other: %r' % (e,)
+
+
+def run_after_wildcard(i):
+    from .c13 import in_child
+    name, f, want = after_wildcard_menu()[i]
+    st, got = in_child(f)
+    if st != 'ok' or got != want:
+        return R({'expected': repr(want), 'observed': repr(got), 'case': name}, name)
+    return R(None, name, nontrivial=True, steps=1)
+
+
 def gen_tail_histories():
     twins = [['index-1', 'index-1.0', 'index-True'], ['index-0', 'index-False', 'index-0.0'], ['mul-after-star', 'mul-float-after-star'],
              ['floordiv-after-star', 'floordiv-float-after-star']]
@@ -718,6 +772,9 @@ def subs(tier, only=None):
             rule='case = sequence of 1-3 T expressions (unary / arithmetic / index step after * or **; indexes and operands that are equal but of different type: '
                  '1 / 1.0 / True) evaluated one after the other in one process: entries for which the step fails are dropped, every expression gives what it gives alone',
             min_nontrivial=30, min_outcomes=2, required_tags=['neg-after-star', 'index-1.0']),
+        Sub('objects-and-callees-after-wildcards', list(range(len(after_wildcard_menu()))), run_after_wildcard,
+            rule='fixed menu (each in a pristine forked child): iterable objects without instance attributes have no children - whatever was enumerated before; '
+                 'an exception of a CALLED step after a wildcard (a GlomError subclass of the callee included) propagates', min_nontrivial=7, min_outcomes=7, parallel=False),
         Sub('wildcards-after-cache-overflow', [[0, ['a.*.z', '**.z', 'a.*.*']], [10050, ['a.*.z', '**.z', 'a.*.*', '*.y.w.*']], [10050, ['a.**', '*']]],
             run_overflow, rule='case = (number of distinct path strings parsed first, fresh wildcard texts): the text spelling must still equal the T spelling '
                                'once the path-text cache (bound 10000) is full; each case in a forked child', min_nontrivial=2, min_outcomes=1, parallel=False,
